@@ -139,7 +139,13 @@ def ob_mutate(name, tindex, kind, positions):
             continue
         ch = z3.BitVec("c", 21)
         valid_cp = z3.And(z3.ULE(ch, 0x10FFFF), z3.Or(z3.ULT(ch, 0xD800), z3.UGT(ch, 0xDFFF)))
-        if kind == "sub":
+        if kind == "bsub":
+            # the stored hash handed over as bytes, one arbitrary byte (incl. ones that are not UTF-8) at this position
+            valid_cp = z3.ULE(ch, 0xFF)
+            tb = t.encode("ascii")
+            m = SBytes(list(tb[:pos]) + [z3.Extract(7, 0, ch)] + list(tb[pos + 1:]))
+            orig_ch = t[pos]
+        elif kind == "sub":
             m = SStr(list(t[:pos]) + [ch] + list(t[pos + 1:]))
             orig_ch = t[pos]
         else:
@@ -175,8 +181,8 @@ def ob_mutate(name, tindex, kind, positions):
             v = o["verify"]
             if v is True or (isinstance(v, SBool)):
                 # accepted: must be the original character or a documented re-encoding of the same digest bits
-                claim = (ch == ord(orig_ch)) if kind == "sub" else z3.BoolVal(False)
-                if kind == "sub":
+                claim = (ch == ord(orig_ch)) if kind in ("sub", "bsub") else z3.BoolVal(False)
+                if kind in ("sub", "bsub"):
                     claim = z3.Or(claim, equivalent(base, t, pos, orig_ch, ch))
                 cond = p.cond() if v is True else z3.And(p.cond(), v.e)
                 r, mdl = check(cond, z3.Not(claim), timeout_ms=20000)
@@ -191,18 +197,19 @@ def ob_mutate(name, tindex, kind, positions):
             if mdl is None:
                 r, mdl = check(p.cond())
             cp = mdl.eval(ch, True).as_long() if mdl is not None else 0x41
-            mutated = (t[:pos] + chr(cp) + (t[pos + 1:] if kind == "sub" else t[pos:]))
+            mutated = (t[:pos] + chr(cp) + (t[pos + 1:] if kind in ("sub", "bsub") else t[pos:]))
             internal = bad[0].startswith("raises")
             key = "mutate:%s:%s" % (base.name, ("internal-error" if internal else "accepts-altered:" + classify(t, mutated)))
-            results.append(violation("%s: %s of U+%04X at %d in %r -> %s" % (name, "substitution" if kind == "sub" else "insertion", cp, pos,
+            results.append(violation("%s: %s of U+%04X at %d in %r -> %s" % (name, {"sub": "substitution", "bsub": "substitution (hash as bytes)"}.get(kind, "insertion"), cp, pos,
                                                                               t, bad[0]), key,
-                                     {"module": "harness.c08", "func": "replay_mutant", "args": {"name": name, "orig": t, "mutated": mutated}},
+                                     {"module": "harness.c08", "func": "replay_mutant",
+                                      "args": {"name": name, "orig": t, "mutated": mutated, "as_bytes": kind == "bsub"}},
                                      name="%s[#%d,%s@%d]" % (name, tindex, kind, pos)))
             break
     if not any(r["status"] == "violation" for r in results):
         results.append(ok("%s template %d (%d chars): %s of any code point at %d positions: identify answers, verify/needs_update "
                           "answer or raise ValueError/TypeError, acceptance only for the original character or a documented "
-                          "re-encoding (%d paths)" % (name, tindex, len(t), "substitution" if kind == "sub" else "insertion", len(positions), npaths),
+                          "re-encoding (%d paths)" % (name, tindex, len(t), {"sub": "substitution", "bsub": "substitution (hash as bytes)"}.get(kind, "insertion"), len(positions), npaths),
                           paths=npaths, name="%s[#%d,%s]" % (name, tindex, kind)))
     return results
 
@@ -221,12 +228,31 @@ def classify(orig, mutated):
     return "substituted-character"
 
 
-def replay_mutant(name, orig, mutated):
+def replay_mutant(name, orig, mutated, as_bytes=False):
     """real code, real digests: the mutated string must be handled cleanly and must not verify unless it is a documented
     re-encoding (same canonical form) of the original"""
     from passlib import registry
     H = registry.get_crypt_handler(name)
     kw = ctxkw(H)
+    if as_bytes:
+        text = mutated
+        mutated = mutated.encode("latin-1")
+        try:
+            r = H.identify(mutated)
+            if r not in (True, False):
+                return "identify(%r) = %r" % (mutated, r)
+        except Exception as e:
+            return "identify(%r) raises %s: %s" % (mutated, type(e).__name__, e)
+        for label, fn in (("verify", lambda: H.verify("pw", mutated, **kw)), ("needs_update", lambda: H.needs_update(mutated))):
+            try:
+                v = fn()
+            except (ValueError, TypeError):
+                continue
+            except Exception as e:
+                return "%s(%r) raises %s: %s (an internal error, not a value/type error)" % (label, mutated, type(e).__name__, e)
+            if label == "verify" and v and text.lower() != orig.lower():
+                return "%s.verify accepts the altered hash %r (original %r)" % (name, mutated, orig)
+        return False
     try:
         r = H.identify(mutated)
         if r not in (True, False):
@@ -363,6 +389,14 @@ def run(tier, seed, t0, only=None):
                 for i in range(0, len(ps), 24):
                     obs.append(Ob("mutate[%s#%d,%s,%d..]" % (n, ti, kind, ps[i]), ob_mutate,
                                   {"name": n, "tindex": ti, "kind": kind, "positions": ps[i:i + 24]}, timeout=1800))
+    for n in sel:
+        H, tmpls = templates(n)
+        for ti, t in enumerate(tmpls[:1]):
+            ps = positions_for(t, tier, seed)
+            ps = ps[::3] if tier == "quick" else ps
+            for i in range(0, len(ps), 24):
+                obs.append(Ob("mutate[%s#%d,bsub,%d..]" % (n, ti, ps[i]), ob_mutate,
+                              {"name": n, "tindex": ti, "kind": "bsub", "positions": ps[i:i + 24]}, timeout=1800))
     for i in range(0, len(names), 6):
         obs.append(Ob("concrete#%d" % (i // 6), ob_concrete, {"names": names[i:i + 6]}, timeout=1800))
     if only:
